@@ -1,4 +1,5 @@
 import functools
+import ntpath
 import os
 from contextlib import contextmanager
 
@@ -17,6 +18,11 @@ def commonprefix(paths):
     if not paths or any(i.root != paths[0].root for i in paths):
         return None
 
+    if ( paths[0].root == Root.absolute and
+         len({ntpath.splitdrive(i.suffix)[0] for i in paths}) > 1 ):
+        # Paths on different drives (or UNC shares) have nothing in common.
+        return None
+
     cls = type(paths[0])
     split = [i.split() for i in paths]
     lo, hi = min(split), max(split)
@@ -30,6 +36,10 @@ def commonprefix(paths):
                 return None
             elif len(bits) == 1 or bits[-1] == '':
                 bits = bits[:1] + ['']
+                directory = True
+            elif bits[:2] == ['', ''] and len(bits) == 4:
+                # Only the UNC share (`//server/share`) is in common.
+                bits = bits + ['']
                 directory = True
         return cls(cls.sep.join(bits), paths[0].root, directory=directory)
 
@@ -51,6 +61,9 @@ def uniquetrees(paths):
 
     def key(path):
         bits = path.split()
+        if bits[:2] == ['', ''] and len(bits) > 2:
+            # A UNC share (`//server/share`) is a drive of its own.
+            bits = [BasePath.sep.join(bits[:4])] + bits[4:]
         if bits and bits[-1] == '':
             # A root directory ('/' or 'C:/') is the parent of everything on
             # its drive.
